@@ -166,8 +166,9 @@ pub fn drive_lerp(seed: u64, full8: bool, out: &str) -> Value {
     for _ in 0..(if full8 { 4000 } else { 400 }) {
         let (mut a, mut b) = (rng.below(8192) as i64 - 4096, rng.below(8192) as i64 - 4096);
         match rng.below(12) { 0 => { a = 0; b = 0; } 1 => { a = 0; } 2 => { b = 0; } 3 => { b = a; } _ => {} }
-        let r32: Vec<i64> = xs16.iter().map(|&(n, d)| ((a as f32).lerp(&(b as f32), n as f32 / d as f32) as f64 * 16.0) as i64).collect();
-        let r64: Vec<i64> = xs16.iter().map(|&(n, d)| ((a as f64).lerp(&(b as f64), n as f32 / d as f32) * 16.0) as i64).collect();
+        let fin = |v: f64| if v.is_finite() { (v * 16.0) as i64 } else { -2147483647 };      // NaN / infinity must not look like 0
+        let r32: Vec<i64> = xs16.iter().map(|&(n, d)| fin((a as f32).lerp(&(b as f32), n as f32 / d as f32) as f64)).collect();
+        let r64: Vec<i64> = xs16.iter().map(|&(n, d)| fin((a as f64).lerp(&(b as f64), n as f32 / d as f32))).collect();
         put(json!({"ev": "lerpf", "ty": "f32", "a": a, "b": b, "r": r32}), &mut f);
         put(json!({"ev": "lerpf", "ty": "f64", "a": a, "b": b, "r": r64}), &mut f);
         recs += 2; evals += 34;
